@@ -5,7 +5,7 @@
    arbitrary functions of (item, index, ctx) unless a theorem says "pure"), every dataset length, every index. *)
 From Coq Require Import ZArith List Bool String.
 Import ListNotations.
-From KD Require Import C01.Model C01.Spec C01.Check C01.Proofs C01.PlanEq C01.Bounds C01.Iter.
+From KD Require Import C01.Model C01.Spec C01.Check C01.Proofs C01.PlanEq C01.Bounds C01.Iter C01.Live.
 
 (* ---------------------------------------------------------------------------------------------------------- *)
 (* the constructor: which loader calls are planned and which positions they fill                              *)
@@ -416,3 +416,46 @@ Example nv_iter_run :
   | inr _ => []
   end = [0; 0; 0; 0; 0; 0; 0; 0; 0; 0; 0; 6]%nat /\ s_len value ex_stack = 3%Z.
 Proof. vm_compute. split; reflexivity. Qed.
+
+(* ---------------------------------------------------------------------------------------------------------- *)
+(* the stack below the wrapper is a live object                                                                *)
+(* ---------------------------------------------------------------------------------------------------------- *)
+(* What the constructor reads of the stack: the declared groups, the ctx requirement and which loaders exist --
+   NOT its length, NOT its index maps, NOT what the loaders return. *)
+Theorem init_reads_only : forall value (st st' : stack value) mode rc,
+  s_fused_ops value st = s_fused_ops value st' -> s_req_ctx value st = s_req_ctx value st' ->
+  (forall s, s_has_type value st s = s_has_type value st' s) -> (forall s, s_has value st s = s_has value st' s) ->
+  init value st mode rc = init value st' mode rc.
+Proof. exact init_reads_only_lemma. Qed.
+Print Assumptions init_reads_only.
+
+(* The stack is an argument of every access: after the stack was resized / re-mapped (st -> st': any other length,
+   any other loader results), the wrapper m built BEFORE the change is the wrapper the constructor builds now, len is
+   the CURRENT length, and every history of accesses / iterator steps and the iteration on the current stack are those
+   of a wrapper built now (all the sequence-semantics theorems above then speak about s_len st').  The harness
+   checks on real histories with a mutation step that the implementation indeed keeps no length / map / bound
+   accessor of the old stack. *)
+Theorem access_uses_current_stack : forall value vint proj (st st' : stack value) mode rc m,
+  s_fused_ops value st = s_fused_ops value st' -> s_req_ctx value st = s_req_ctx value st' ->
+  (forall s, s_has_type value st s = s_has_type value st' s) -> (forall s, s_has value st s = s_has value st' s) ->
+  init value st mode rc = inl m ->
+  init value st' mode rc = inl m /\
+  mw_len value st' = s_len value st' /\
+  (forall f ops, exists m', init value st' mode rc = inl m' /\
+     run_ops value vint proj st' m f ops = run_ops value vint proj st' m' f ops) /\
+  (exists m', init value st' mode rc = inl m' /\ iter value vint proj st' m = iter value vint proj st' m').
+Proof. exact access_uses_current_stack_lemma. Qed.
+Print Assumptions access_uses_current_stack.
+
+(* non-vacuity: the example stack grown from 3 to 5 samples with other loader results; the wrapper built on the
+   3-sample stack iterates over 5 samples afterwards *)
+Definition ex_stack_grown : stack value :=
+  {| s_len := 5%Z; s_fused_ops := s_fused_ops value ex_stack; s_req_ctx := s_req_ctx value ex_stack;
+     s_has_type := s_has_type value ex_stack; s_has := s_has value ex_stack;
+     s_load := fun s i c => s_load value ex_stack s (i + 1)%Z c |}.
+Example nv_live :
+  match init value ex_stack "index x" false with
+  | inl m => (List.length (iter value VInt cproj ex_stack m), List.length (iter value VInt cproj ex_stack_grown m))
+  | inr _ => (0, 0)%nat
+  end = (3, 5)%nat.
+Proof. vm_compute. reflexivity. Qed.
